@@ -56,12 +56,14 @@ func VerifC20Slot() {
 	vs.Fix(c20HashWord(val, ts)%dpOffset, k)
 
 	assigned := calculateAssignedTime(val, interval, ts, dpOffset, dpStart)
-	slotMin := ts + interval*int64(dpStart)/100
-	slotMax := ts + interval*int64(dpStart+dpOffset-1)/100
-	vs.Assert("slot-within-configured-window", vs.And(slotMin <= assigned.Unix(), assigned.Unix() <= slotMax))
+	share := interval * int64(dpStart+k) / 100
+	lo := interval * int64(dpStart) / 100
+	hi := interval * int64(dpStart+dpOffset-1) / 100
+	vs.Assert("assigned-time-is-the-hash-selected-share-of-the-interval", assigned.Unix() == ts+share)
 	vs.Assert("assigned-time-has-whole-seconds", assigned.Nanosecond() == 0)
-	vs.Assert("assigned-time-is-the-hash-selected-share-of-the-interval", assigned.Unix() == ts+interval*int64(dpStart+k)/100)
-	vs.Reach("slot-strictly-inside-window", vs.And(slotMin < assigned.Unix(), assigned.Unix() < slotMax))
+	vs.Assert("slot-not-before-the-configured-window", lo <= share)
+	vs.Assert("slot-not-after-the-configured-window", share <= hi)
+	vs.Reach("slot-strictly-inside-window", vs.And(lo < share, share < hi))
 	vs.Reach("first-slot", k == 0)
 	vs.Reach("last-slot", k == dpOffset-1)
 }
